@@ -20,23 +20,30 @@ def nested_cfg(rng, u):
 def iter_job(rng, jid, kind_of="iter"):
     C = gen.configs()
     C["nested"] = nested_cfg
-    name = rng.choice(["nested", "nested", "nested", "two_bins", "thr16", "same_bin_16", "list8", "tree9", "tree9", "tree_mixed", "tree_mixed", "tree_shrink", "thr64", "cap0_equal"])
+    shapes = ["nested", "nested", "nested", "two_bins", "thr16", "same_bin_16", "list8", "tree9", "tree9", "tree_mixed", "tree_mixed", "tree_shrink", "thr64", "cap0_equal"]
+    if kind_of == "retain":
+        shapes += ["tree9", "tree_mixed", "tree9", "tree_mixed", "list8", "same_bin_16"]
+    name = rng.choice(shapes)
     u = gen.Uids()
     c = C[name](rng, u)
-    kind = rng.choice(["map", "map", "set"])
+    kind = rng.choice(["map", "map", "set"]) if kind_of == "iter" else rng.choice(["map", "map", "map", "set"])
     prefix = c["prefix"] if kind == "map" else [p for p in c["prefix"] if p["op"] in ("insert", "remove")]
     nw = rng.choice([1, 2, 2, 3])
     writers = []
-    fresh = [k for k in c["universe"] if k not in [p.get("k") for p in c["prefix"]]]
+    present = [p.get("k") for p in c["prefix"] if p["op"] == "insert"]
+    fresh = [k for k in c["universe"] if k not in present]
     for _ in range(nw):
         prog = []
-        for _ in range(rng.randint(1, 6)):
+        for _ in range(rng.randint(1, 6) if kind_of == "iter" else rng.randint(3, 8)):
             r = rng.random()
-            if r < 0.55 and fresh:
+            if kind_of == "retain" and r < 0.45 and present:
+                # replace the value of an entry the predicate may just have inspected
+                prog.append(gen.ins(rng.choice(present), u, tag=2))
+            elif r < 0.55 and fresh:
                 k = fresh.pop(rng.randrange(len(fresh)))
                 prog.append(gen.ins(k, u))
             else:
-                prog.append(gen.perkey_op(rng, kind, c["hot"], u))
+                prog.append(gen.perkey_op(rng, kind, c["hot"] + present[:6], u))
         writers.append(prog)
     if kind_of == "iter":
         itop = {"op": rng.choice(["iter", "iter", "keys", "values"]) if kind == "map" else "iter"}
